@@ -42,6 +42,17 @@ CHECKS = {
              "is executed on every pair (annotations rendered alternately as typing generics / PEP 585 / PEP 604 / Optional) plus random depth-3 terms; TLC judges "
              "accepted <=> Conforms and 'never raises'. A pure function: TLC is enumerator and evaluator, one implementation test per case of the function table.",
         note=TB, technique="TLA+ transcription of the type relation; TLC-enumerated function table executed on check_type; TLC-judged", ref="3 C15"),
+    "C20": dict(
+        text="Two TLA+ layers: CopyGuardOps/CopyGuard (protocol: what any correct implementation may do to copyreg.dispatch_table[ModuleType]; events Call/Begin/End/Ret "
+             "per thread + Install/Restore; invariants Quiescent, Safe, ForeignUntouched) and CopyGuardImpl (PlusCal, implementation-shaped: singleton creation, lock, "
+             "refcount, patched flag; TLC shows the fixed design satisfies the invariants for all interleavings of 2-3 threads x nesting 2 and that the two pre-fix "
+             "designs -- __init__ re-run, racy creation -- violate them). Real executions are recorded as protocol traces (events derived by sys.settrace from "
+             "protect_via_deepcopy / copy.deepcopy call/return, table snapshotted at every library line) for random histories of copying operations, every operation "
+             "aborted at executed library lines, and real threads under a deterministic scheduler (all <=1-preemption, 2-thread <=2-preemption schedules at guard "
+             "lines, plus random); TLC checks each trace step is a protocol step and every state satisfies the invariants.",
+        note=TB + "; CPython GIL with line-granularity scheduling; harness-side replacement of the library's RLocks by scheduler-aware locks",
+        technique="TLA+ protocol spec + PlusCal implementation model (TLC); trace validation of real sequential / aborted / scheduled-thread executions",
+        ref="3 C20"),
 }
 
 PENDING = "check not built yet in this round (see DESIGN.md section 3 for the planned TLA+ module)"
